@@ -59,6 +59,38 @@ def gen_cases(tier, seed):
                         yield cl.H(cfgv).call(inv.callid, inv.args, inv.blobs, reps).case(5000, inv.name + ' / edition %d' % std)
 
 
+    # the negative response inside a with-block of either context manager of the client: it must get out of the block
+    invs = invocations()
+    for inv in invs[::max(1, len(invs) // 16)]:
+        for code in (0x10, 0x22, 0x31, 0x78, 0x7F, 0x95, 0x00):
+            for ex in (1, 0):
+                for k in (0, 2):
+                    for blk in ('override', 'suppress'):
+                        cfgv = list(cl.DEFAULT_CFG)
+                        for s, v in inv.cfg.items():
+                            cfgv[s] = v
+                        cfgv[cl.EX_NEG], cfgv[cl.HAS_CB] = ex, (1 if k else 0)
+                        reps = [(100 * (i + 1), bytes([0x7F, inv.sid, 0x78])) for i in range(k)]
+                        reps.append((100 * (k + 1), bytes([0x7F, inv.sid, code])))
+                        h = cl.H(cfgv)
+                        if blk == 'override':
+                            h.ov_fun(b'', b'')            # identity modifier: the bytes on the wire are unchanged
+                        else:
+                            h.spr_enter(True)            # wait for an NRC: a negative reply is processed normally
+                        h.call(inv.callid, inv.args, inv.blobs, reps)
+                        if blk == 'override':
+                            h.ov_exit()
+                        else:
+                            h.spr_exit()
+                        yield h.case(5000, inv.name + ' / inside a %s block' % blk)
+
+
+def has_sub(sid):
+    from udsoncan.BaseService import BaseService
+    svc = BaseService.from_request_id(sid)
+    return svc is not None and svc.use_subfunction()
+
+
 def worker_init():
     cl.setup()
 
@@ -71,7 +103,8 @@ def oracle(c, r):
     cfgv, ops = cl.case_ops(c)
     calls, _ = cl.parse_calls(r, 1)
     d = calls[0]
-    _, callid, args, cb, reps = ops[0]
+    _, callid, args, cb, reps = [o for o in ops if o[0] == 'call'][0]
+    in_spr = any(o[0] == 'spr_enter' for o in ops)
     final = reps[-1][1]
     code = final[2]
     k = len(reps) - 1
@@ -85,8 +118,11 @@ def oracle(c, r):
             if e[0] == 'CB' and not (i + 1 < len(ev) and ev[i + 1][0] == 'W'):
                 return ('callback-order', 'callback not followed by a wait')
     if code == 0x78:
-        # the last frame is itself a pending frame: the request stays pending and then times out
+        # the last frame is itself a pending frame: the request stays pending and then times out (inside a suppress block that
+        # waits for an NRC, silence is the expected end: None)
         if d['kind'] == 'raised' and d['err'] == 4:
+            return None
+        if in_spr and d['kind'] == 'none':
             return None
         return ('78-surfaced', 'after a final 0x78 frame the call did not stay pending: %r' % d['kind'])
     if d['resp'] is None:
